@@ -190,7 +190,12 @@ def run_case(probe, g, ops, spec):
         if want:
             labels.add('removed_something')
         # ---- a following build re-creates them
-        if mode != 'dead':
+        # (not judged when the history ended with a failed command whose output still exists: whether the next build
+        # trusts that file is the listed finding D8 and has nothing to do with what clean did; counted)
+        failed_left = [k_ for k_ in sim.model.failed if any(o in sim.files for o in all_outs(sim.edge_by_key(k_) or {'outs': [], 'iouts': []}))]
+        if failed_left and mode != 'dead':
+            labels.add('post_clean_rebuild_not_judged_failed_output_present')
+        if mode != 'dead' and not failed_left:
             for p in got:
                 sim.files.pop(p, None)
             sim.files.pop('stray.txt', None)
@@ -204,6 +209,124 @@ def run_case(probe, g, ops, spec):
         return None, labels
     finally:
         sim.close()
+
+
+def e2e_dead_case(root, g, sel, prep, dry):
+    """real binary: build, remove statements from the manifest, then `-t cleandead` - directly, after `-t recompact`, or
+    with a log that is due for recompaction when cleandead opens it (the recompaction predicate lives in ninja.cc and is
+    reached by no in-process part). prep: 'none' | 'recompact' | 'bloat'"""
+    import subprocess
+    from .. import e2e
+    sim = e2e.RealSim(root, g)
+    labels = set()
+    try:
+        if not sim.establish():
+            return None, labels
+        g = sim.g
+        removable = [e for e in g['edges'] if not e['phony'] and not any(o in x.get('vals', []) for x in g['edges'] for o in all_outs(e))]
+        if not removable:
+            return None, labels
+        log_before = set(sim.read_log())
+        victims = []
+        for i in sel[:2]:
+            v = removable[i % len(removable)]
+            if v in g['edges']:
+                g['edges'].remove(v)
+                victims.append(v)
+                for o in all_outs(v):
+                    if any(o in x['exp'] + x['imp'] + x['oo'] for x in g['edges']) and o not in g['srcs']:
+                        g['srcs'].append(o)
+        former = set(o for v in victims for o in all_outs(v))
+        # a former output counts as a source only while a remaining statement still consumes it
+        g['srcs'] = [x for x in g['srcs'] if x not in former or any(x in y['exp'] + y['imp'] + y['oo'] for y in g['edges'])]
+        # validations naming a removed output would make the manifest invalid: drop them
+        for x in g['edges']:
+            x['vals'] = [v for v in x.get('vals', []) if v not in former or v in g['srcs']]
+        open(sim.path("build.ninja"), "w").write(graphs.real_manifest(g, sim.vtool))
+        env = dict(os.environ, TERM="dumb")
+        env.pop("MAKEFLAGS", None)
+        lp = sim.path(".ninja_log")
+        if prep == 'recompact':
+            p0 = subprocess.run([sim.ninja, "-t", "recompact"], cwd=sim.dir, env=env, capture_output=True, timeout=60)
+            if p0.returncode != 0:
+                return dict(kind='-t recompact failed', detail=dict(out=(p0.stdout + p0.stderr).decode('utf-8', 'replace')[-300:])), labels
+            labels.add('dead_after_explicit_recompact')
+        elif prep == 'bloat' and os.path.exists(lp):
+            raw = open(lp, "rb").read()
+            lines = [l for l in raw.split(b"\n")[1:] if l.count(b"\t") >= 4]
+            if lines and raw.endswith(b"\n"):
+                uniq = len(set(l.split(b"\t")[3] for l in lines))
+                target = max(100, 3 * uniq) + 5          # past the threshold: the next invocation that opens the log recompacts
+                add = []
+                while len(lines) + len(add) < target:
+                    add += lines
+                add = add[:target - len(lines)]
+                with open(lp, "wb") as f:
+                    f.write(raw.split(b"\n")[0] + b"\n" + b"\n".join(add + lines) + b"\n")
+                labels.add('dead_with_log_due_for_recompaction')
+        else:
+            labels.add('dead_plain')
+        before, _ = sim.scan_dir()
+        p1 = subprocess.run([sim.ninja] + (["-n"] if dry else []) + ["-t", "cleandead"], cwd=sim.dir, env=env, capture_output=True, timeout=60)
+        out = (p1.stdout + p1.stderr).decode('utf-8', 'replace')
+        after, _ = sim.scan_dir()
+        detail = dict(prep=prep, dry=dry, removed_statements=[key(v) for v in victims], output=out[-300:], manifest=graphs.manifest(g)[-500:])
+        if p1.returncode != 0:
+            return dict(kind='[real binary] -t cleandead failed', detail=detail), labels
+        got = set(before) - set(after)
+        sc = dead_scope(g, log_before, before)
+        want = set(p for p in sc if p in before)
+        if victims:
+            labels.add('statement_removed')
+        if dry:
+            labels.add('mode_dead_n')
+            if got:
+                return dict(kind='[real binary] dry-run cleandead removed files', detail=dict(detail, removed=sorted(got))), labels
+            return None, labels
+        srcs = set(g['srcs'])
+        if got & srcs:
+            return dict(kind='[real binary] cleandead removed a source file', detail=dict(detail, removed=sorted(got & srcs))), labels
+        if got - sc:
+            return dict(kind='[real binary] cleandead removed files outside its scope', detail=dict(detail, extra=sorted(got - sc), scope=sorted(sc))), labels
+        if want - got:
+            return dict(kind='[real binary] cleandead left files of removed statements behind', detail=dict(detail, left=sorted(want - got))), labels
+        if want:
+            labels.add('removed_something')
+        return None, labels
+    finally:
+        sim.close()
+
+
+def e2e_worker(widx, n_examples):
+    res = common.Result()
+    state = {}
+    budget = common.ShrinkBudget()
+    root = common.scratch_root()
+    import shutil
+    try:
+        feats = dict(unordered_hidden=False, dyndep=False, deps=False, hidden_generated=False, rsp=False, pools=False, validations=False)
+
+        @hseed(common.sub_seed(PROP, 'e2e', widx))
+        @settings(max_examples=n_examples, deadline=None, database=None, suppress_health_check=list(HealthCheck),
+                  phases=[Phase.generate, Phase.shrink], verbosity=Verbosity.quiet, report_multiple_bugs=False)
+        @given(graphs.graphs(max_edges=6, features=feats), st.lists(st.integers(0, 40), min_size=1, max_size=2),
+               st.sampled_from(['none', 'recompact', 'bloat', 'bloat']), st.sampled_from([False, False, False, True]))
+        def test(g, sel, prep, dry):
+            case = dict(e2e_dead=True, g=g, sel=sel, prep=prep, dry=dry)
+            dg = common.digest(case)
+            if budget.skip(dg):
+                return
+            f, labels = e2e_dead_case(root, g, sel, prep, dry)
+            res.case(case, 'removed_something' in labels and ('dead_after_explicit_recompact' in labels or 'dead_with_log_due_for_recompaction' in labels),
+                     ['h:' + l for l in labels], sample=dict(manifest=graphs.manifest(g)[-300:], sel=sel, prep=prep) if 'removed_something' in labels else None)
+            if f:
+                state['fail'] = (case, "%s %s" % (f['kind'], json.dumps(f['detail'], default=repr)[:1000]))
+                budget.failed(dg)
+                raise AssertionError()
+        common.run_hypothesis(test, state, res)
+    finally:
+        shutil.rmtree(root, ignore_errors=True)
+    return res
 
 
 SPEC = st.fixed_dictionaries(dict(mode=st.sampled_from(['all', 'all', 'targets', 'rules', 'dead', 'dead']), generator=st.booleans(), dry=st.sampled_from([False, False, True]),
@@ -237,6 +360,14 @@ def worker(widx, n_examples):
 
 
 def replay_case(case):
+    if case.get('e2e_dead'):
+        import shutil
+        root = common.scratch_root()
+        try:
+            f, _ = e2e_dead_case(root, copy.deepcopy(case['g']), case['sel'], case['prep'], case['dry'])
+        finally:
+            shutil.rmtree(root, ignore_errors=True)
+        return f['kind'] if f else None
     with Probe("san") as p:
         f, _ = run_case(p, copy.deepcopy(case['g']), copy.deepcopy(case['ops']), case['spec'])
     return f['kind'] if f else None
@@ -249,13 +380,18 @@ def run(tier):
                       "clean scope: all / all -g / target set / rule set / cleandead after 1-2 statements were removed (their outputs stay on disk and in "
                       "the log, possibly still consumed by others), each with and without -n. Oracle: removed files == existing files of the scope as "
                       "defined by the property; sources, phony names and stray files never; dry run removes nothing and counts the same set; the build "
-                      "after a clean reproduces the clean-build tree and converges. Non-trivial = something was in scope and existed.",
+                      "after a clean reproduces the clean-build tree and converges. Real-binary part: build, remove 1-2 statements from the manifest, then "
+                      "`ninja -t cleandead` directly / after `-t recompact` / with a log that is due for recompaction, same dead-scope model. "
+                      "Non-trivial = something was in scope and existed.",
                       simprops.ASSUME + ["-g is asserted for the default scope only (the manual defines it there)",
                                          "cleandead treats a path known only through the deps log as not in the graph, as the code comment documents"])
     n = 60000 if tier == 'thorough' else 6000
     r = common.run_workers(worker, [(w, max(1, n // common.NCPU)) for w in range(common.NCPU)])
     ck.merge(r)
-    for f in r.failures:
+    # the real binary: -t cleandead through ninja.cc (log opening, recompaction predicate), graphs without deps/dyndep
+    r2 = common.run_workers(e2e_worker, [(w, (300 if tier == 'thorough' else 18)) for w in range(common.NCPU)])
+    ck.merge(r2)
+    for f in r.failures + r2.failures:
         if f.get('harness_error'):
             continue
         fails = sum(1 for _ in range(3) if replay_case(f['case']))
